@@ -197,7 +197,11 @@ def runFrame (w : List String) (impl : String) : String :=
             | _ :: z :: rest =>
               if z.startsWith "z=" then
                 match parseHex (z.drop 2).toString with
-                | some b => .ok (b, " " ++ z)
+                | some b =>
+                  -- LZ4: the hand-over must be what `lz4Decomp` accepts (size guard + "never more than declared")
+                  if comp == "l" ∧ (lz4Decomp (fun _ => some b) h.body).isNone then
+                    .error "REJECT lz4-output-exceeds-declared-size"
+                  else .ok (b, " " ++ z)
                 | none => .error "REJECT bad-z"
               else if z == "err" ∧ (rest == ["ext.lz4"] ∨ rest == ["ext.snap"]) then .error ("err " ++ " ".intercalate rest)
               else .error "REJECT expected-z-or-decompress-error"
